@@ -27,6 +27,9 @@ def rand_bound(rng, kind):
         return None
     if kind == 1 and r < 0.7:
         return (0.0, 1.0)
+    if r > 0.94:
+        # an explicit bound that equals the default (all-zero) Bound message: the variable is FIXED at 0, not unbounded
+        return (0.0, 0.0)
     lo = float(rng.randint(-6, 4))
     hi = lo + float(rng.randint(0, 8)) / rng.choice([1, 2])
     r = rng.random()
